@@ -101,7 +101,7 @@ def _arr(ctx, v):
     return np.array(v, dtype=float)
 
 
-def h_driver(ctx, pname, rec, driver):
+def h_driver(ctx, pname, rec, driver, intx=False):
     algopy = symx.load_algopy()
     prog = get_prog(pname)
     A = Namespace(algopy, make_consts(ctx, prog))
@@ -110,9 +110,22 @@ def h_driver(ctx, pname, rec, driver):
     cg, fx, fy = record(ctx, algopy, A, prog, O.wrap(ctx, algopy, arg, R))
     N = int(np.prod(prog.shape))
     M = int(fy.size) if hasattr(fy, 'size') else 1
-    xarg, X = make_value(ctx, prog, 'nd', 'x')
-    xs = list(X.ravel())
-    x = _arr(ctx, xs)
+    if intx:
+        # integer-typed evaluation point (a list of ints / an integer array)
+        xs = [S.const(k) if ctx.mode == 'sym' else float(k) for k in (1, 2, 3)[:N]]
+        xs_names = None
+        x = np.array([1, 2, 3][:N]) if intx == 'array' else [1, 2, 3][:N]
+        X = ctx.array('xsym', (N,))          # symbols standing for the point in the oracle
+        for i in range(N):
+            ctx.assume(X[i] == (1, 2, 3)[i]) if ctx.mode == 'sym' else None
+        if ctx.mode == 'sym':
+            xs = list(X)
+        else:
+            xs = [1.0, 2.0, 3.0][:N]
+    else:
+        xarg, X = make_value(ctx, prog, 'nd', 'x')
+        xs = list(X.ravel())
+        x = _arr(ctx, xs)
     try:
         if driver == 'gradient':
             g = cg.gradient(x)
@@ -218,6 +231,12 @@ def units(tier, seed):
             rec = recs[k % 3]
             k += 1
             out.append(Unit('C04/%s/%s/rec=%s' % (pn, drv, rec), 'symx.props.c04', 'h_driver', {'pname': pn, 'rec': rec, 'driver': drv}, dict(opts)))
+    for pn, drvs in [('log(sum sq)', ['gradient', 'hessian', 'hess_vec', 'vec_jac', 'jac_vec', 'jacobian']),
+                     ('x/(1+x*x)', ['jacobian', 'jac_vec', 'vec_jac', 'vec_hess', 'vec_hess_vec'])]:
+        for drv in drvs:
+            for kind in (['array'] if tier == 'quick' else ['array', 'list']):
+                out.append(Unit('C04/%s/%s/integer-typed x (%s)' % (pn, drv, kind), 'symx.props.c04', 'h_driver',
+                                {'pname': pn, 'rec': ('utpm', 1, 1), 'driver': drv, 'intx': kind}, dict(opts)))
     nrand = 6 if tier == 'quick' else 40
     for i in range(nrand):
         name = 'random(seed=%d,len=%d)' % (7000 + 1000 * seed + i, 3 + i % 5)
